@@ -215,6 +215,12 @@ def unstring_annotation(node: ast.expr, ctx:'model.Documentable', section:str='a
         return node
     else:
         assert isinstance(expr, ast.expr), expr
+        # The sub-trees parsed out of string literals (and the re-built Subscript nodes) carry no
+        # 'parent' attribute: link the whole annotation again, below the original parent, so that
+        # the colorizer knows when "A | B" sits under an operator and needs its parenthesis.
+        linker = Parentage()
+        linker.parent = getattr(node, 'parent', None)
+        linker.visit(expr)
         return expr
 
 class _AnnotationStringParser(ast.NodeTransformer):
